@@ -569,3 +569,58 @@ EXTRA["X03"] = {
          "trace_module": "NodesTrace", "trace_consts": dict(ENTRY), "tv_timeout": 3000, "timeout": 7200},
     ],
 }
+
+
+def _repo_test_traces(wdir, tier, seed, trace_path):
+    """Run the repository's own test suite with hook H9 recording the store actors, and turn the per-process
+    files into one ndjson trace: one run per (process, actor thread, document)."""
+    import glob as _glob, subprocess as _sp, collections as _c, os, re, json
+    repo = os.environ.get("VERIF_REPO", "/repo")
+    raw = os.path.join(wdir, "x04raw")
+    os.makedirs(raw, exist_ok=True)
+    env = dict(os.environ, IROH_DOCS_VERIF_TRACE=raw, CARGO_TARGET_DIR=os.path.join(_v.WORK, "target-repotests"),
+               CARGO_INCREMENTAL="0", CARGO_NET_OFFLINE="true")
+    cmd = ["cargo", "nextest", "run", "--features", "verif", "--workspace", "--no-fail-fast", "--test-threads", "8", "--offline"]
+    p = _sp.run(cmd, cwd=repo, env=env, capture_output=True, text=True, timeout=3600)
+    tail = (p.stdout + p.stderr)[-3000:]
+    m = re.search(r"(\d+) tests run: (\d+) passed", p.stdout + p.stderr)
+    if not m:
+        raise _v.ToolError("the repository's test suite did not run (feature verif):\n" + tail)
+    runs = _c.defaultdict(list)
+    for f in sorted(_glob.glob(raw + "/*.ndjson")):
+        for line in open(f):
+            line = line.strip()
+            if line:
+                e = json.loads(line)
+                runs[(os.path.basename(f), e["actor"], e["ns"])].append(e)
+    n = 0
+    with open(trace_path, "w") as out:
+        for i, (k, evs) in enumerate(sorted(runs.items())):
+            evs.sort(key=lambda e: e["seq"])
+            out.write(json.dumps({"ev": "Reset", "run": i, "seed": seed, "ops": [], "proc": k[0], "actor": k[1]}, separators=(",", ":")) + "\n")
+            for e in evs:
+                out.write(json.dumps({"ev": "Act", "op": e["op"], "sync": e["sync"], "sub": e["sub"], "pre": e["pre"], "post": e["post"]},
+                                     separators=(",", ":")) + "\n")
+                n += 1
+    summ = {"histories": len(runs), "trace_lines": n + len(runs), "tests_run": int(m.group(1)), "tests_passed": int(m.group(2)),
+            "processes_with_actors": len({k[0] for k in runs})}
+    json.dump(summ, open(trace_path[:-len(".ndjson")] + ".summary.json", "w"))
+    return summ
+
+
+EXTRA["X04"] = {
+    "level": "exploration",
+    "rule": "traces recorded from the real store actors while the repository's own 92 tests run (hook H9, built with the feature "
+            "verif into a separate target directory): every request on a document with the document's {open, handles, sync, "
+            "subscribers} before and after, validated against the open/close counting and sync-switch transition relation; a case "
+            "is one (test process, actor, document) run",
+    "assumptions": ["the suite is run with 8 test threads as in the baseline command; a failing test is not a rejection here (the "
+                    "baseline decides that), only its recorded actor behaviour is judged",
+                    "results of requests are not recorded (replies travel on one-shot channels inside each handler); the state "
+                    "transition is"],
+    "models": [],
+    "drives": [
+        {"name": "repotests", "custom": _repo_test_traces, "cmd": "-", "args": {},
+         "trace_module": "ActorStateTrace", "trace_consts": {}, "tv_timeout": 3000, "timeout": 7200},
+    ],
+}
